@@ -178,8 +178,18 @@ class BoundClosure:
         return self.closure.interp.call_closure(self.closure, [self.obj, *a], k)
 
 
+_YIELD_CACHE = {}
+
+
 def has_yield(node):
     """yield directly in this function (not in nested defs/lambdas)."""
+    r = _YIELD_CACHE.get(id(node))
+    if r is None:
+        r = _YIELD_CACHE[id(node)] = _has_yield(node)
+    return r
+
+
+def _has_yield(node):
     stack = list(node.body) if not isinstance(node, ast.Lambda) else [node.body]
     while stack:
         n = stack.pop()
@@ -958,6 +968,29 @@ class Interp:
         from . import models
 
         return models.dispatch_call(self, f, a, k)
+
+    def call_merged(self, f, a, k):
+        """Call a small pure function and merge its (scalar) results over its internal branches into one ite
+        term, so that e.g. `-1 if blank else int(text)` does not fork the enclosing path (DESIGN.md §2.2.7).
+        Falls back to ordinary forking execution when the results cannot be merged."""
+        n_eff = len(self.effects)
+        try:
+            results = self.path.local_paths(lambda: self.call(f, a, k))
+        except Undecided:
+            raise
+        except BaseException:
+            del self.effects[n_eff:]
+            return self.call(f, a, k)
+        if len(results) == 1:
+            conds, v = results[0]
+            for c in conds:
+                self.path.assume(c)
+            return v
+        merged = ops.merge_values(self, results)
+        if merged is NotImplemented:
+            del self.effects[n_eff:]
+            return self.call(f, a, k)
+        return merged
 
 
 class StarSym:
